@@ -57,8 +57,8 @@ theorem spelling_irrelevant (raw raw' : Bytes) (fileDirs : List Directive)
 /-- **an allow-ips response can never be admitted to the response cache** — also when the same line carries
 `cache server:full` before or after it: so no hit can ever bypass the Present extension. -/
 theorem guard_not_cached (cfg : Cfg) (addr : Nat) (pre post : List Directive) (ips : List Nat) (g : Bool) :
-    admit cfg g (toOut (present addr (pre ++ .allowIps ips :: post))) = false := by
-  apply admit_false_cases
+    admissible cfg g (toOut (present addr (pre ++ .allowIps ips :: post))) = false := by
+  apply admissible_false_cases
   right; right; right; right; right; left
   unfold present toOut
   rw [List.foldl_append, List.foldl_cons]
